@@ -456,7 +456,7 @@ func c05Main(args []string) error {
 		}
 	}
 	u8 := pgScalar("a", 8, false)
-	cacheArgs := [][2]pgVar{{pgArray("a", 8), u8}, {pgArray("a", 8), u8}, {u16, u16}}
+	cacheArgs := [][2]pgVar{{pgArray("a", 8), u8}, {pgArray("a", 8), u8}, {u16, u16}, {u16, u16}}
 	for i, t := range pgCacheTemplates {
 		run(t, cacheArgs[i][0], cacheArgs[i][1], 6, "cache-template")
 	}
